@@ -24,6 +24,13 @@ pub mod std_specs {
     pub assume_specification[<str as AsRef<str>>::as_ref](s: &str) -> (r: &str) ensures r@ == s@;
     pub assume_specification<T>[<[T] as AsRef<[T]>>::as_ref](s: &[T]) -> (r: &[T]) ensures r@ == s@;
     pub assume_specification<'a>[<String as PartialEq<&'a str>>::eq](a: &String, b: &&str) -> (r: bool) ensures r == (a@ == b@);
+    pub assume_specification<'a>[<String as PartialEq<&'a str>>::ne](a: &String, b: &&str) -> (r: bool) ensures r == (a@ != b@);
+    pub assume_specification<'a>[<&'a str as PartialEq<String>>::eq](a: &&'a str, b: &String) -> (r: bool) ensures r == (a@ == b@);
+    pub assume_specification<'a>[<&'a str as PartialEq<String>>::ne](a: &&'a str, b: &String) -> (r: bool) ensures r == (a@ != b@);
+    pub assume_specification[<String as PartialEq<str>>::eq](a: &String, b: &str) -> (r: bool) ensures r == (a@ == b@);
+    pub assume_specification[<String as PartialEq<str>>::ne](a: &String, b: &str) -> (r: bool) ensures r == (a@ != b@);
+    pub assume_specification[<str as PartialEq<String>>::eq](a: &str, b: &String) -> (r: bool) ensures r == (a@ == b@);
+    pub assume_specification[<str as PartialEq<String>>::ne](a: &str, b: &String) -> (r: bool) ensures r == (a@ != b@);
     pub assume_specification[String::as_bytes](s: &String) -> (r: &[u8]) ensures r@ == crate::spec::utf8(s@);
     /// `drop` has no result and no effect on anything the contracts talk about (Drop impls are not modelled)
     pub assume_specification<T>[::std::mem::drop](_0: T) where T: ::std::marker::Destruct;
